@@ -692,6 +692,15 @@ def _child(root, scn, step, resfile, outf, errf):
             @classmethod
             def today(cls):
                 return cls.now()
+
+            @classmethod
+            def utcnow(cls):
+                # the same instant read as UTC (under the step's TZ): not what trash-cli reads - recorded under its own name, which the
+                # model does not know, so a run that reads it is not a run of the model
+                import time as _t
+                v = _dt.datetime.utcfromtimestamp(_t.mktime(nowv.timetuple()))
+                shim.trace.append(['utcnow', [], ['ok', [v.year, v.month, v.day, v.hour, v.minute, v.second, 0]]])
+                return v
         em.datetime = _DT
 
         # trash-put's clock is datetime.datetime.now() (trashcli/put/clock.py): the module's view of `datetime` is replaced, not the
